@@ -1,5 +1,6 @@
 import ActixModel.Util
 import ActixModel.Model.DispBounds
+import ActixModel.Model.DispBoundsW
 import ActixModel.Model.DispBoundsSim
 /-
 Line-protocol driver for C05.  One case = configuration tokens, input items (`+…`) and a script of
@@ -52,6 +53,7 @@ def itemToks (s : String) : Option (List Tok × Nat × Bool) :=
   | 'g' :: r => do
     let h ← natOf (String.ofList r)
     if h < 18 then none else some ([.head h .none], h, false)
+  | ['m'] => some ([.head 14 .none], 14, false)
   | 'l' :: r => do
     let (hs, ns) ← splitOnce (String.ofList r) ':'
     let h ← natOf hs
@@ -162,14 +164,25 @@ def statuses (s : Sim) : List Nat :=
 
 /-- fold the machine over the trace; compare counters -/
 def absCheck (s : Sim) : String :=
-  let cfg : Cfg := { wbs := s.wbs, readCap := s.seg, minHead := 16 }
-  match DispBounds.run cfg DispBounds.init s.trace.reverse with
+  let cfg : Cfg := { wbs := s.wbs, readCap := s.seg, minHead := 14 }
+  match DispBounds.runW cfg DispBounds.initW s.trace.reverse with
   | none => " GUARD!"
-  | some a =>
+  | some x =>
+    let a := x.s
     let chanLen : Option Nat := match s.plOwner with
       | some rid => (match findChan s rid with | some c => some c.len | none => some 0)
       | none => none
-    if a.rb = s.rb && a.wb = s.wb && a.q = qlen s && a.pl.map (·.len) = chanLen then ""
+    -- bytes the scheduler holds in the channels of queued requests (equal) / of the request in
+    -- service (the machine does not see a handler draining a channel that is already complete, so
+    -- its `cur` is an upper bound there)
+    let chanOf : Nat → Nat := fun rid => match findChan s rid with | some c => c.len | none => 0
+    let queuedBodies : Nat := (s.msgs.front ++ s.msgs.back.reverse).foldl
+      (fun acc m => match m with | .item rid => acc + chanOf rid | .error _ => acc) 0
+    let curBody : Nat := match s.st with | .svc rid _ => chanOf rid | _ => 0
+    let wsBodies : Nat := (x.ws.map (·.2)).foldl (· + ·) 0
+    if a.rb = s.rb && a.wb = s.wb && a.q = qlen s && a.pl.map (·.len) = chanLen
+        && wsBodies = queuedBodies && (match s.st with | .svc _ _ => curBody ≤ x.cur | _ => true)
+        && heldInput x ≤ heldMax cfg then ""
     else " ABS!"
 
 def runSteps (s : Sim) (steps : List Step) (acc : List String) : Sim × List String :=
